@@ -81,6 +81,8 @@ func (c *Calcium) withWorkloadsLocked(ctx context.Context, ignoreLock bool, IDs 
 	if err != nil {
 		return err
 	}
+	// lock in ascending ID order whatever order the store returned the workloads in
+	sort.Slice(cs, func(i, j int) bool { return cs[i].ID < cs[j].ID })
 	var lock lock.DistributedLock
 	for _, workload := range cs {
 		if !ignoreLock {
